@@ -1,9 +1,35 @@
 #!/bin/sh
-# Build the framework from files on disk only (offline).
-set -e
+# Build the framework from files on disk only (offline). Each claimed property's theorem module and
+# harness package is built on its own so that one failure does not stop the rest (its check reports it).
 cd "$(dirname "$0")"
 export CARGO_NET_OFFLINE=true
-(cd lean && lake build EmmyVerif vdriver)
+CLAIMED=$(cat checklib/claimed.txt)
+(cd lean && python3 ../checklib/mkdriver.py --probe; lake build vdriver
+ for p in $CLAIMED; do lake build EmmyVerif.Props.$p >/dev/null 2>&1 || echo "setup: Props.$p does not build"; done)
 [ -f harness/Cargo.lock ] || cp /repo/Cargo.lock harness/Cargo.lock
-(cd harness && cargo build -q)
+PKGS=$(python3 - <<'PY'
+import sys; sys.path.insert(0, "checklib")
+from registry import PROPS
+claimed = open("checklib/claimed.txt").read().split()
+print(" ".join(sorted({"-p " + PROPS[p]["harness"] for p in claimed if p in PROPS and PROPS[p].get("harness")})))
+PY
+)
+(cd harness && cargo build -q $PKGS) || echo "setup: harness build failed"
+# pre-steps (repo binaries) of the claimed properties
+python3 - <<'PY'
+import sys, os
+sys.path.insert(0, "checklib"); sys.path.insert(0, "checklib/pre")
+from registry import PROPS
+from importlib import import_module
+claimed = open("checklib/claimed.txt").read().split()
+done = set()
+for p in claimed:
+    for g in PROPS.get(p, {}).get("pre", []):
+        if g in done: continue
+        done.add(g)
+        try:
+            import_module(g).run(os.getcwd(), "/repo", "quick", 1, [])
+        except Exception as e:
+            print("setup: pre-step", g, "failed:", e)
+PY
 echo setup-ok
